@@ -526,6 +526,18 @@ def finish(ctx, level, level_rule, trusted_base, assumptions, build_error=None):
 
     for k in open_known:
         lines.append("KNOWN-FINDING: property=%s %s" % (pid, k["what"]))
+        # replay the recorded witness on the implementation and note whether it still fails as recorded
+        w = k.get("witness") or {}
+        if isinstance(w, dict) and w.get("kind") and w.get("arg") and w.get("failing_output") and os.path.exists(os.path.join(BUILD, "implrun")):
+            try:
+                rc, out, err = run_side("implrun", [w["kind"] + "\t" + w["arg"]], timeout=120)
+                got = out[0] if out else "<no output>"
+                if got == w["failing_output"]:
+                    ctx.notes.append("known finding %s: witness replayed on the implementation, still fails as recorded" % k["id"])
+                else:
+                    ctx.notes.append("known finding %s: witness no longer gives the recorded output (got %s)" % (k["id"], got[:200]))
+            except Exception as e:  # never let the replay decide the verdict
+                ctx.notes.append("known finding %s: witness replay failed to run (%s)" % (k["id"], e))
 
     cov = {
         "evaluations": max(ctx.evaluations, 1),
